@@ -7,7 +7,11 @@ Oracle (offline over the timed log):
                      no attempt started since due(m) was set
   forgotten          drained history (every timer fired, nothing parked): still stored
   flush-blocked      flush() has not returned at the next full quiescence
-  flush-did-not-attempt  a message waiting at flush time not attempted by the next full quiescence
+  flush-did-not-attempt  a message waiting at flush time not attempted by the next full quiescence (flush called
+                     at full quiescence; or -- histories that gate load() only -- while load() is streaming, for ids
+                     already listed, never attempted and present in the queue's timetable at the call)
+  due-earlier/later-than-backoff-choice  the due time written with set_timestamp lies outside
+                     [end of the failed attempt + wait, instant of the write + wait] (later only if in the future)
 """
 import random
 
@@ -19,7 +23,10 @@ LEVEL = 'exploration'
 LEVEL_TEXT = ('Real slimta Queue scheduler loop (timetable, wake event, lock, bounded/unbounded pools) on dict, '
               'disk, redis and cloud backends under a virtual clock and a seeded controlled schedule: enqueue, '
               'relay completions with transient failures, timer expiry (incl. backoff 0 and equal due times), '
-              'flush(), start-up load of pre-existing messages, wait() announcements. Timing clauses are exact '
+              'flush(), start-up load of pre-existing messages, wait() announcements; timers that fire late (clock '
+              'already past several due times); fractional, negative and very large backoff values; flush() while '
+              'load() is still streaming; 20..30 messages due at the same instant under bounded pools. Timing '
+              'clauses are exact '
               '(virtual time); liveness is restated as bounded progress at full quiescence. Held = held on the '
               'schedules reported, not all schedules.')
 LEVEL_NOTE = ('Trusted: virtual clock shim (time() and timed Event.wait of slimta.queue only; set/clear/untimed waits '
@@ -32,7 +39,9 @@ RULE = ('case = one seeded schedule (config + PRNG seed => decision list) over b
         'kinds of scheduler actions used, pool config)')
 ASSUMPTIONS = ['a message that waits for a pool slot the harness itself is occupying is never judged (full quiescence only)',
                'liveness restated: after every timer has been fired and nothing is in flight nothing may remain stored']
-REQUIRED_HITS = ['attempt-outcomes-observed', 'histories-judged', 'timer-expiries', 'full-quiescence-checkpoints']
+REQUIRED_HITS = ['attempt-outcomes-observed', 'histories-judged', 'timer-expiries', 'full-quiescence-checkpoints',
+                 'flush-while-load-streaming-judged', 'burst-20-equal-due-bounded-pool', 'late-timer-steps',
+                 'non-integer-or-negative-waits']
 SHARDS = {'quick': 12, 'thorough': 16}
 BUDGET = {'quick': 70, 'thorough': 800}
 
@@ -42,6 +51,41 @@ BACKENDS = C.BACKENDS_ALL
 def gen_cases(tier, seed, shard, nshards):
     rnd = random.Random('c12-%d-%d' % (seed, shard))
     plan = C.backend_plan(9000 if tier == 'quick' else 250000, BACKENDS)
+    # the small deciding strata come first: a budget cut on a loaded machine must not starve them
+    # ---- flush() while load() is still streaming: only the listing is gated (between two entries), so that the
+    # set of messages certainly waiting at flush time is known although the harness holds something back
+    nfl = (1300 if tier == 'quick' else 30000)
+    for be in ('disk', 'redis', 'cloud', 'cloud-lenient', 'cloud-mq'):
+        for i in range(max(1, int(nfl / 5.0 / C.WEIGHT[be]) // nshards)):
+            cfg = {'backend': be, 'stratum': 'flush-in-load',
+                   'profile': rnd.choice([['temp', 'temp', 'ok'], ['temp', 'ok']]), 'rcpt_profile': ['ok', 'temp'],
+                   'backoffs': rnd.choice([[5, 5, None], [0, 5, None], [3, None]]),
+                   'rcpts': (1, 2), 'nmsg': rnd.randint(0, 2), 'prepop': rnd.randint(4, 10),
+                   'prepop_offsets': rnd.choice([[5.0, 5.0, 10.0, 60.0], [-1.0, 5.0, 60.0], [60.0]]),
+                   'store_pool': rnd.choice([None, None, 1, 2, 3]), 'relay_pool': rnd.choice([None, None, None, 1, 2]),
+                   'gate_p': rnd.choice([0.5, 0.8]), 'gate_ops': ['load'], 'flush_p': 1.0, 'race_start': True,
+                   'synth_wait': rnd.random() < 0.3, 'announce_p': 0.2, 'bounce_none_p': 1.0, 'steps': 30}
+            yield {'cfg': cfg, 'seed': rnd.randrange(1 << 40)}
+    # ---- many messages due at the same instant, bounded pools: _check_ready / flush() block in Pool.spawn
+    # with most of the cut still to hand over while finished attempts re-queue
+    nbu = (900 if tier == 'quick' else 20000)
+    for be in BACKENDS:
+        for i in range(max(1, int(nbu / 6.0 / (6 * C.WEIGHT[be])) // nshards)):
+            n = rnd.randint(20, 30)
+            cfg = {'backend': be, 'stratum': 'burst',
+                   'profile': rnd.choice([['temp', 'temp', 'ok'], ['temp', 'ok', 'ok']]), 'rcpt_profile': ['ok', 'temp'],
+                   'backoffs': rnd.choice([[5, 5, None], [0, 5, None], [7, None]]),
+                   'rcpts': (1, 1), 'nmsg': rnd.choice([0, 0, 3]), 'prepop': n,
+                   'prepop_offsets': rnd.choice([[5.0], [0.0], [-1.0], [5.0, 5.0, 5.0, 6.0]]),
+                   'gate_p': rnd.choice([0.0, 0.2]), 'flush_p': rnd.choice([0, 0.2]),
+                   'overshoot_p': rnd.choice([0, 0.3]), 'bounce_none_p': 1.0, 'steps': 90, 'drain_rounds': 600}
+            # mostly one bounded pool: with both bounded and this many messages the recorded pool-cycle
+            # deadlock is nearly certain and would be all such a history can show
+            mode = rnd.choice(['store', 'store', 'relay', 'relay', 'both'])
+            cfg['store_pool'] = rnd.choice([1, 2, 3, 5]) if mode in ('store', 'both') else None
+            cfg['relay_pool'] = rnd.choice([1, 2, 4]) if mode in ('relay', 'both') else None
+            yield {'cfg': cfg, 'seed': rnd.randrange(1 << 40)}
+    # ---- bulk: seeded schedules
     for be in BACKENDS:
         for i in range(max(1, plan[be] // nshards)):
             cfg = {'backend': be,
@@ -49,21 +93,63 @@ def gen_cases(tier, seed, shard, nshards):
                                           ['temp', 'temp', 'temp', 'ok']]),
                    'rcpt_profile': ['ok', 'temp', 'temp'],
                    'backoffs': rnd.choice([[0, 5, None], [5, 5, 5, None], [10, 0, None], [7, 7, 7, 7, None],
-                                           [0, 0, 0, None], [3, 0, 9, None], [5, None]]),
+                                           [0, 0, 0, None], [3, 0, 9, None], [5, None],
+                                           # a backoff function may return any number
+                                           [0.25, 1.0 / 3, 0.1, None], [-3, 5, -0.5, None], [1e9, 0.5, 2 ** 40, None],
+                                           [2.5, 2.5, 2.5, None]]),
                    'rcpts': (1, 3), 'nmsg': rnd.randint(1, 4),
                    'store_pool': rnd.choice([None, None, None, None, 1, 2, 3]),
                    'relay_pool': rnd.choice([None, None, None, None, 1, 2]),
                    'gate_p': rnd.choice([0.0, 0.2, 0.4]), 'flush_p': rnd.choice([0, 0.15, 0.4]),
                    'synth_wait': rnd.random() < 0.5, 'announce_p': 0.3, 'extwrite_p': rnd.choice([0, 0.3]),
                    'prepop': rnd.choice([0, 0, 2, 4]), 'race_start': rnd.random() < 0.2,
+                   'prepop_offsets': rnd.choice([None, [-100.0, -1.0, 0.0, 5.0, 5.0, 10.0, 0.1, 1.0 / 3, 4.999]]),
+                   'overshoot_p': rnd.choice([0, 0.3, 0.6]),
                    'bounce_none_p': 1.0,     # bounces are C13's business; keep the timetable about the originals
+                   'pool_objects': rnd.random() < 0.25,
                    'steps': rnd.choice([25, 45])}
+            if cfg['prepop_offsets'] is None:
+                del cfg['prepop_offsets']
             yield {'cfg': cfg, 'seed': rnd.randrange(1 << 40)}
 
 
 def _hits(lab, H, R):
     R.hit('timer-expiries', sum(1 for d in lab.decisions if d[0] == 'advance' and d[1] is not None))
     R.hit('full-quiescence-checkpoints', sum(1 for e in lab.events if e[1] == 'fullq'))
+    # flush() called between a load() entry and the end of the listing, in a history where that is judged
+    loading, n, nent = False, 0, 0
+    for e in lab.events:
+        if e[1] == 'store' and e[2] == 'load_entry':
+            loading = True
+        elif e[1] == 'store' and e[2] == 'load_done':
+            loading = False
+        elif e[1] == 'flush_call' and loading and not e[3] and lab.cfg.get('gate_ops') == ['load']:
+            n += 1
+            nent += len(e[4] or ()) if len(e) > 4 else 0
+    R.hit('flush-while-load-streaming-judged', n)
+    R.count('timetable-entries-at-flush-while-load-streaming', nent)
+    # largest group of stored messages sharing one due instant, with at least one bounded pool
+    import collections
+    due = {}
+    big = 0
+    for e in lab.events:
+        if e[1] == 'prepop':
+            due[H.sid(e[3])] = e[4]
+        elif e[1] == 'store' and e[2] == 'write':
+            due[H.sid(e[5])] = e[4]
+        elif e[1] == 'store' and e[2] == 'set_timestamp':
+            due[H.sid(e[3][0])] = e[3][1]
+        elif e[1] == 'store' and e[2] == 'remove':
+            due.pop(H.sid(e[3][0]), None)
+        elif e[1] == 'attempt_start' and due:
+            big = max(big, max(collections.Counter(due.values()).values()))
+    if big >= 20 and (lab.cfg.get('store_pool') is not None or lab.cfg.get('relay_pool') is not None):
+        R.hit('burst-20-equal-due-bounded-pool')
+    if big >= 20:
+        R.count('histories-with-20+-messages-due-at-one-instant')
+    R.hit('non-integer-or-negative-waits', sum(1 for e in lab.events if e[1] == 'backoff' and e[4] is not None
+                                                 and (e[4] != int(e[4]) or e[4] < 0 or e[4] >= 1e9)))
+    R.hit('late-timer-steps', sum(1 for d in lab.decisions if d[0] == 'overshoot'))
     R.count('flush-calls', sum(1 for e in lab.events if e[1] == 'flush_call'))
     R.count('flush-returns', sum(1 for e in lab.events if e[1] == 'flush_ret'))
     R.count('load-entries', sum(1 for e in lab.events if e[1] == 'store' and e[2] == 'load_entry'))
